@@ -90,7 +90,7 @@ func crashCheck(exp *Expect, before, after Snapshot, where string) []Finding {
 }
 
 // killRun re-creates the tree, runs the command with the injection and checks the outcome.
-func killRun(bin, work string, c Case, kp killPoint) killResult {
+func killRun(bin, work string, c Case, kp killPoint, env ...string) killResult {
 	kr := killResult{kp: kp}
 	root, err := newScratch(work)
 	if err != nil {
@@ -122,7 +122,7 @@ func killRun(bin, work string, c Case, kp killPoint) killResult {
 	}
 	logPath := filepath.Join(root, "strace.log")
 	inject := fmt.Sprintf("%s:signal=SIGKILL:when=%d", kp.Syscall, kp.K)
-	_, _, _, err = straceRun(bin, tree, argv, []byte(c.Stdin), logPath, inject, 30*time.Second)
+	_, _, _, err = straceRun(bin, tree, argv, []byte(c.Stdin), logPath, inject, 30*time.Second, env...)
 	if err != nil {
 		kr.err = err
 		return kr
@@ -165,6 +165,9 @@ func killRun(bin, work string, c Case, kp killPoint) killResult {
 // usableForCrash filters random cases: judged, writes to files, no known-condition shapes.
 func usableForCrash(tr *traced) bool {
 	if tr.nj != "" || tr.exp == nil || tr.exp.NotJudged != "" {
+		return false
+	}
+	if tr.exp.Known != "" && !allowKnown() {
 		return false
 	}
 	return len(tr.exp.Files) > 0
@@ -283,58 +286,120 @@ func runCrash(bin, work string, res *vh.Result) {
 		}
 	}
 	// 2. kill runs
-	results := make([]killResult, len(jobsList))
-	parallel(len(jobsList), func(j int) { results[j] = killRun(bin, work, cases[jobsList[j].ci].c, jobsList[j].kp) })
 	distinct := map[string]bool{}
 	boundaries := map[int]map[int]bool{}
 	seenSig := map[string]bool{}
-	for j, kr := range results {
-		ci := jobsList[j].ci
-		if kr.err != nil {
-			if kr.err.Error() == "timeout" {
-				res.Hist("outcomes", "timeout")
+	tried := map[string]int{}
+	absorb := func(jobsList []job, env ...string) {
+		results := make([]killResult, len(jobsList))
+		parallel(len(jobsList), func(j int) { results[j] = killRun(bin, work, cases[jobsList[j].ci].c, jobsList[j].kp, env...) })
+		for j, kr := range results {
+			ci := jobsList[j].ci
+			tried[fmt.Sprintf("%d/%s/%d", ci, kr.kp.Syscall, kr.kp.K)]++
+			if kr.err != nil {
+				if kr.err.Error() == "timeout" {
+					res.Hist("outcomes", "timeout")
+					continue
+				}
+				fatal("kill run %s %v: %v", cases[ci].name, kr.kp, kr.err)
+			}
+			if !kr.killed {
+				res.Hist("outcomes", "kill-point-not-reached")
 				continue
 			}
-			fatal("kill run %s %v: %v", cases[ci].name, kr.kp, kr.err)
-		}
-		if !kr.killed {
-			res.Hist("outcomes", "kill-point-not-reached")
-			continue
-		}
-		res.Evaluations++
-		res.Hist("kill_syscall", kr.kp.Syscall)
-		res.Hist("kill_window", "after-"+kr.lastOp+"-before-"+kr.nextOp)
-		if boundaries[ci] == nil {
-			boundaries[ci] = map[int]bool{}
-		}
-		boundaries[ci][kr.done] = true
-		if kr.mutations > 0 {
-			distinct[fmt.Sprintf("%d/%d", ci, kr.done)] = true
-		}
-		if len(kr.findings) == 0 {
-			res.Hist("outcomes", "ok")
-			if len(res.Samples) < 3 && kr.mutations > 0 && j%11 == 0 {
-				res.Samples = append(res.Samples, map[string]interface{}{"argv": cases[ci].c.Argv, "tree": cases[ci].c.Tree.Listing(),
-					"kill": fmt.Sprintf("%s when=%d", kr.kp.Syscall, kr.kp.K), "ops_before_kill": kr.opsText, "result": "every input intact at p, p.bak or complete at p"})
+			res.Evaluations++
+			res.Hist("kill_syscall", kr.kp.Syscall)
+			res.Hist("kill_window", "after-"+kr.lastOp+"-before-"+kr.nextOp)
+			if boundaries[ci] == nil {
+				boundaries[ci] = map[int]bool{}
 			}
-			continue
-		}
-		res.Hist("outcomes", "violation")
-		for _, f := range kr.findings {
-			if seenSig[f.Signature] && len(res.Violations) > 50 {
+			boundaries[ci][kr.done] = true
+			if kr.mutations > 0 {
+				distinct[fmt.Sprintf("%d/%d", ci, kr.done)] = true
+			}
+			if len(kr.findings) == 0 {
+				res.Hist("outcomes", "ok")
+				if len(res.Samples) < 3 && kr.mutations > 0 && j%11 == 0 {
+					res.Samples = append(res.Samples, map[string]interface{}{"argv": cases[ci].c.Argv, "tree": cases[ci].c.Tree.Listing(),
+						"kill": fmt.Sprintf("%s when=%d", kr.kp.Syscall, kr.kp.K), "ops_before_kill": kr.opsText, "result": "every input intact at p, p.bak or complete at p"})
+				}
 				continue
 			}
-			seenSig[f.Signature] = true
-			wc := cases[ci].c
-			wc.Mode = "crash"
-			wc.Kill, wc.KillOn = kr.kp.K, kr.kp.Syscall
-			v := vh.Violation{Kind: "oracle", Signature: f.Signature, Input: caseInput(wc) + fmt.Sprintf("\nkill: %s when=%d", kr.kp.Syscall, kr.kp.K), Observed: f.Observed, Expected: f.Expected,
-				Detail: "operations before the kill: " + strings.Join(kr.opsText, "; "), Case: ci, Options: map[string]string{"witness": caseJSON(wc)}}
-			if trs[ci].exp.Known != "" {
-				v.Options["known_id"] = trs[ci].exp.Known
+			res.Hist("outcomes", "violation")
+			for _, f := range kr.findings {
+				if seenSig[f.Signature+fmt.Sprint(ci)] || (seenSig[f.Signature] && len(res.Violations) > 40) {
+					continue
+				}
+				seenSig[f.Signature] = true
+				seenSig[f.Signature+fmt.Sprint(ci)] = true
+				wc := cases[ci].c
+				wc.Mode = "crash"
+				wc.Kill, wc.KillOn = kr.kp.K, kr.kp.Syscall
+				v := vh.Violation{Kind: "oracle", Signature: f.Signature, Input: caseInput(wc) + fmt.Sprintf("\nkill: %s when=%d", kr.kp.Syscall, kr.kp.K), Observed: f.Observed, Expected: f.Expected,
+					Detail: "operations before the kill: " + strings.Join(kr.opsText, "; "), Case: ci, Options: map[string]string{"witness": caseJSON(wc)}}
+				if trs[ci].exp.Known != "" {
+					v.Options["known_id"] = trs[ci].exp.Known
+				}
+				res.Violations = append(res.Violations, v)
 			}
-			res.Violations = append(res.Violations, v)
 		}
+	}
+	absorb(jobsList)
+	// 3. strace counts injections per system call *and per thread*; when the Go scheduler moves the
+	// goroutine to another thread a kill point is hit later or not at all.  For cases with a
+	// deterministic operation order (one task, or -v which serialises the tasks) retry the
+	// boundaries that no run has hit yet.
+	deterministic := func(ci int) bool {
+		tr := trs[ci]
+		if !usableForCrash(tr) || *flagWitness != "" {
+			return false
+		}
+		if *flagTier != "thorough" && strings.HasPrefix(cases[ci].name, "random-") {
+			return false
+		}
+		inv, _ := ParseArgv(cases[ci].c.Argv)
+		return len(tr.exp.Tasks) <= 1 || inv.Verbose > 0
+	}
+	rounds := 6
+	if *flagTier == "thorough" {
+		rounds = 12
+	}
+	for round := 0; round < rounds; round++ {
+		var retry []job
+		for ci, tr := range trs {
+			if !deterministic(ci) {
+				continue
+			}
+			pre := map[string]int{}
+			if len(tr.ops) > 0 {
+				for _, c := range tr.calls[:tr.ops[0].CallIdx] {
+					pre[c.Name]++
+				}
+			}
+			for d, op := range tr.ops {
+				if boundaries[ci][d] {
+					continue
+				}
+				name := tr.calls[op.CallIdx].Name
+				rank := 0
+				for _, c := range tr.calls[:op.CallIdx+1] {
+					if c.Name == name {
+						rank++
+					}
+				}
+				k := rank
+				if round%2 == 1 && rank-pre[name] > 0 {
+					k = rank - pre[name] // the goroutine left the start-up thread
+				}
+				retry = append(retry, job{ci, killPoint{name, k}})
+			}
+		}
+		if len(retry) == 0 {
+			break
+		}
+		res.Hist("kill_points", "retry-rounds")
+		// GOMAXPROCS=1 keeps the goroutine on one thread almost always; same program, same call sequence
+		absorb(retry, "GOMAXPROCS=1")
 	}
 	// coverage of operation boundaries per case (the baseline trace says how many there are):
 	// boundary d = "killed on entry to the operation with index d", d in [0, len(ops))
@@ -342,7 +407,7 @@ func runCrash(bin, work string, res *vh.Result) {
 	famCov := map[string]string{}
 	famFull := 0
 	for ci, tr := range trs {
-		if boundaries[ci] == nil {
+		if boundaries[ci] == nil || !deterministic(ci) {
 			continue
 		}
 		total += len(tr.ops)
@@ -360,8 +425,8 @@ func runCrash(bin, work string, res *vh.Result) {
 			}
 		}
 	}
-	res.Extra["family_boundary_coverage"] = famCov
-	res.Extra["family_cases_fully_covered"] = famFull
+	res.Extra["deterministic_family_boundary_coverage"] = famCov
+	res.Extra["deterministic_family_cases_fully_covered"] = fmt.Sprintf("%d/%d", famFull, len(famCov))
 	res.Extra["boundaries_covered"] = covered
 	res.Extra["boundaries_in_baselines"] = total
 	res.Extra["strace"] = "strace -f -o <log> -e " + traceExpr() + " --inject=<syscall>:signal=SIGKILL:when=<k> <bin> <argv>"
